@@ -66,7 +66,41 @@ func isCtxDone(v ssa.Value) bool {
 // DiscoverCtxOps finds the operations by shape: a function of pkg containing a `go` of one of its own closures.
 func DiscoverCtxOps(p *Prog, T *Terms, pkg string) []*CtxOp {
 	var out []*CtxOp
+	// the operations are analysed in their inlined views (inline.go): shared plumbing factored into helpers - also
+	// helpers that take the I/O or the join as a function value - is part of each operation. An operation is an
+	// outermost function of the package whose view starts a goroutine.
+	cgx := BuildCallGraph(p)
+	var cands []*ssa.Function
 	for _, f := range p.FuncsOf(pkg) {
+		if f.Parent() != nil || len(f.Blocks) == 0 {
+			continue
+		}
+		v := p.Inlined(f, nil)
+		hasGo := false
+		for _, b := range v.Blocks {
+			for _, in := range b.Instrs {
+				if _, ok := in.(*ssa.Go); ok {
+					hasGo = true
+				}
+			}
+		}
+		if hasGo {
+			cands = append(cands, f)
+		}
+	}
+	var fns []*ssa.Function
+	for _, f := range cands {
+		outer := true
+		for _, g := range cands {
+			if g != f && cgx.Reach([]*ssa.Function{g}, false)[f] {
+				outer = false
+			}
+		}
+		if outer {
+			fns = append(fns, p.Inlined(f, nil))
+		}
+	}
+	for _, f := range fns {
 		for _, b := range f.Blocks {
 			for _, in := range b.Instrs {
 				g, ok := in.(*ssa.Go)
@@ -88,7 +122,7 @@ func DiscoverCtxOps(p *Prog, T *Terms, pkg string) []*CtxOp {
 						if !ok {
 							continue
 						}
-						t := c.Call.StaticCallee()
+						t := staticTarget(&c.Call) // a package helper, or a function value handed to a shared helper
 						if t == nil || !p.InRepo(t) || t.Blocks == nil {
 							continue
 						}
